@@ -19,12 +19,38 @@ import (
 const (
 	fCapMutates   = "C17-cap-mutates-input"
 	fQuoTrunc     = "C17-quo-truncated"
-	fSqrtMod2     = "C17-modsqrt-mod2-panics"
-	fBlumBitlen   = "C17-blum-bitlen"
 	fStaleReduced = "C17-stale-reduced-after-modulus-set"
-	fNegZero      = "C17-negative-zero"
-	fCardBitLen   = "C17-cardinal-bitlen"
+	fStaleEven    = "C17-stale-reduced-after-even-modulus-write"
+	fIntAddDirty  = "C17-int-add-dirty-output"
+	fDivVarPanic  = "C17-divvartime-panics"
+	fDivVarAlias  = "C17-divvartime-alias-remainder"
 )
+
+func limbsOf(ann int) int { return (ann + 63) / 64 }
+
+// limbNonzero reports whether |v| has a set bit in limbs [lo, hi).
+func limbNonzero(v *big.Int, lo, hi int) bool {
+	if hi <= lo {
+		return false
+	}
+	x := new(big.Int).Rsh(new(big.Int).Abs(v), uint(64*lo))
+	return mod2k(x, 64*(hi-lo)).Sign() != 0
+}
+
+// intAddDirty is the exact input class of finding C17-int-add-dirty-output: numct.Int.AddCap
+// (and everything built on it) lays the operands out inside the output's previous limb buffer
+// without clearing it, so previous output limbs above an operand's own limb count leak into the
+// operand. zOld/zAnn describe the output before the call (for out = x or out = y: that operand).
+func intAddDirty(zOld *big.Int, zAnn, xAnn, yAnn, cap int) bool {
+	size := limbsOf(cap + 1)
+	lz, lx, ly := limbsOf(zAnn), limbsOf(xAnn), limbsOf(yAnn)
+	return limbNonzero(zOld, lx, min(size, lz)) || limbNonzero(zOld, size+ly, min(2*size, lz))
+}
+
+// divVarTimePanics is the exact input class of finding C17-divvartime-panics.
+func divVarTimePanics(numAnn int, den *big.Int) bool {
+	return den.Sign() != 0 && numAnn-new(big.Int).Abs(den).BitLen()+2 <= -64
+}
 
 // ---- small big.Int helpers ---------------------------------------------------------------
 
